@@ -249,7 +249,11 @@ func replayB(p *plan, bin, path string) int {
 		fmt.Fprintln(os.Stderr, err)
 		return 2
 	}
-	res := engb.RunOne(r.Workload, sim.NewReplayTape(r.Seed, r.Tape), filepath.Join(scratch, "replay"), bin, true, nil)
+	tp := sim.NewReplayTape(r.Seed, r.Tape)
+	if r.Tape == nil {
+		tp = sim.NewTape(r.Seed) // a bare seed: regenerate the run
+	}
+	res := engb.RunOne(r.Workload, tp, filepath.Join(scratch, "replay"), bin, true, nil)
 	if res.Harness != "" {
 		fmt.Fprintln(os.Stderr, "harness error:", res.Harness)
 		return 2
